@@ -769,11 +769,26 @@ class C05(PropertyCheck):
         cycles until the 10000-iteration guard raises.  Input class: degenerate optimum (decided in exact
         arithmetic on the input); only the exception outcome belongs to the finding — a non-optimal
         *returned* solution on the same input is still reported."""
-        if case["kind"] not in ("solver", "recon") or case.get("fn") == "posneg":
+        if case.get("fn") == "posneg":
             return None
         if not (isinstance(obs, dict) and obs.get("err") in ("runtime", "InversionException")):
             return None
-        A, b = fr_mat(case["A"]), fr_vec(case["b"])
+        if case["kind"] == "inversion":
+            if not case["use_positive_only_solver"] or "aux" not in obs:
+                return None
+            aux = obs["aux"]
+            A, b = fr_mat(aux["A"]), fr_vec(aux["b"])
+            ids = set()
+            if case["force_edge_pixels_to_zeros"]:
+                starts = [sum(aux["params"][:i]) for i in range(len(aux["params"]))]
+                for o, st in zip(case["objs"], starts):
+                    if o["type"] == "mapper":
+                        ids |= {st + e for e in rect_edge(o["shape"])}
+                ids |= set(aux.get("zero_expect", []))
+            keep = [i for i in range(len(b)) if i not in ids]
+            A, b = [[A[i][j] for j in keep] for i in keep], [b[i] for i in keep]
+        else:
+            A, b = fr_mat(case["A"]), fr_vec(case["b"])
         if not b or exact_solve(A, b) is None:
             return None
         return "D4c" if degenerate_optimum(A, b) else None
